@@ -131,6 +131,17 @@ class Engine:
     def _dig(t):
         return t.hash()
 
+    def _same(self, t, recorded):
+        """a replay met a syntactically different term at a recorded decision: z3.simplify orders the arguments of commutative
+        operators by internal ids, which depend on the creation history of terms, so the same condition can come back in another
+        shape.  The replay is still aligned iff the two terms are equivalent under the path condition so far."""
+        if recorded is None or t.sort() != recorded.sort():
+            return False
+        try:
+            return not self._check(t != recorded)
+        except SolverUnknown:
+            return False
+
     def concretize(self, t, signed=True):
         """fork over the feasible concrete values of bit-vector term t; returns a Python int.
         Candidate values are recorded in the decision list so that replays are deterministic."""
@@ -139,9 +150,9 @@ class Engine:
             if z3.is_bv_value(t):
                 return t.as_signed_long() if signed else t.as_long()
             if self.pos < len(self.decisions):
-                kind, v, d, dg = self.decisions[self.pos]
+                kind, v, d, dg, rt = self.decisions[self.pos]
                 self.pos += 1
-                if kind not in ("c", "cf") or dg != self._dig(t):
+                if kind not in ("c", "cf") or (dg != self._dig(t) and not self._same(t, rt)):
                     raise ReplayDivergence(f"concretize at {self.pos - 1}: {kind}")
                 vv = z3.BitVecVal(v, t.size())
                 self.assume(t == vv if d else t != vv)
@@ -151,7 +162,7 @@ class Engine:
             m = self.get_model()
             vv = m.eval(t, model_completion=True)
             kind = "c" if self._check(t != vv) else "cf"
-            self.decisions.append((kind, vv.as_long(), True, self._dig(t)))
+            self.decisions.append((kind, vv.as_long(), True, self._dig(t), t))
             self.pos += 1
             self.assume(t == vv)
             return vv.as_signed_long() if signed else vv.as_long()
@@ -167,9 +178,9 @@ class Engine:
         if DEADLINE[0] is not None and time.time() > DEADLINE[0]:
             raise Deadline()
         if self.pos < len(self.decisions):
-            kind, _, d, dg = self.decisions[self.pos]
+            kind, _, d, dg, rt = self.decisions[self.pos]
             self.pos += 1
-            if kind not in ("b", "bf") or dg != self._dig(cond):
+            if kind not in ("b", "bf") or (dg != self._dig(cond) and not self._same(cond, rt)):
                 raise ReplayDivergence(f"branch at {self.pos - 1}: {kind}")
             self.assume(cond if d else z3.Not(cond))
             return d
@@ -187,11 +198,11 @@ class Engine:
             side = bool(z3.is_true(v))
         other = z3.Not(cond) if side else cond
         if self._check(other):
-            self.decisions.append(("b", None, True, self._dig(cond)))
+            self.decisions.append(("b", None, True, self._dig(cond), cond))
             self.pos += 1
             self.assume(cond)
             return True
-        self.decisions.append(("bf", None, side, self._dig(cond)))
+        self.decisions.append(("bf", None, side, self._dig(cond), cond))
         self.pos += 1
         self.assume(cond if side else z3.Not(cond))
         return side
@@ -926,10 +937,10 @@ class Exploration:
                 res = ("exc", e)
             self.paths += 1
             for i in range(len(prefix), len(eng.decisions)):
-                k, v, d, dg = eng.decisions[i]
+                k, v, d, dg, rt = eng.decisions[i]
                 if k in ("bf", "cf"):
                     continue
-                stack.append(eng.decisions[:i] + [(k, v, False, dg)])
+                stack.append(eng.decisions[:i] + [(k, v, False, dg, rt)])
             yield Path(list(eng.pc), list(eng.obligations), res[0], res[1], list(eng.decisions), eng.resources)
         self.complete = True
 
